@@ -4,6 +4,7 @@ import dataclasses
 from collections.abc import Callable
 
 import titanfp.fpbench.fpcast as fpc
+from titanfp.fpbench.fpcparser import reserved_constants
 
 from ..analysis import DefineUse, DefineUseAnalysis, TypeAnalysis, TypeInfer
 from ..analysis.type_infer import TypeInferError
@@ -18,6 +19,7 @@ from ..transform import (
     ForUnpack,
     FreeVarElim,
     IfBundling,
+    RenameTarget,
     WhileBundling,
 )
 from ..transform.free_var_elim import unclosed_data_free_vars
@@ -1421,7 +1423,22 @@ def _apply_fpc_passes(fd: FuncDef) -> FuncDef:
     fd = ForBundling.apply(fd)
     fd = WhileBundling.apply(fd)
     fd = IfBundling.apply(fd)
+    fd = _rename_reserved_names(fd)
     return fd
+
+
+def _rename_reserved_names(fd: FuncDef) -> FuncDef:
+    """FPCore reads `E`, `PI`, `TRUE`, ... as constants wherever they stand, so
+    a variable spelled like one is given another name."""
+    names = DefineUse.analyze(fd).names()
+    clash = sorted(
+        (n for n in names if str(n) in reserved_constants and n not in fd.free_vars),
+        key=str,
+    )
+    if not clash:
+        return fd
+    gensym = Gensym(reserved=names)
+    return RenameTarget.apply(fd, { n: gensym.fresh(n.base.lower()) for n in clash })
 
 
 class FPCoreCompiler(Backend):
